@@ -476,6 +476,8 @@ class Feedback:
         if cls.__dict__.get('_override_backups') is None:
             # Each class needs its own backups; an inherited dictionary would be shared
             cls._override_backups = {}
+        # Register first: if a later field turns out to be unknown, the earlier ones still get restored
+        report.override_feedback(cls)
         for field, new_value in fields.items():
             if field not in cls._override_backups:
                 getattr(cls, field)  # unknown fields still raise AttributeError
@@ -483,7 +485,6 @@ class Feedback:
                 # to the parent class (which may itself be overridden right now)
                 cls._override_backups[field] = cls.__dict__.get(field, _INHERITED_FIELD)
             setattr(cls, field, new_value)
-        report.override_feedback(cls)
 
     @classmethod
     def _restore_overrides(cls):
